@@ -91,6 +91,9 @@ func freshDB(s *bb.Server) string {
 			if r != nil {
 				msg = r.Raw
 			}
+			if !s.Alive() {
+				msg += " [server process gone: " + s.PanicInLogs() + "]"
+			}
 			bb.Fatal("create database %s: %v %s", name, err, msg)
 		}
 		time.Sleep(100 * time.Millisecond)
